@@ -303,6 +303,31 @@ def xfer(index, rep):
         ov.leaf("transfer reset each month", ok0, "a meat herd of a species without a dairy herd this month still receives a transfer "
                 "(the per-species transfer is not reset to 0 every month)", dec)
     ov.done()
+    # the tables the additive term is read from (births per herd, transfer per species) are complete before the slaughter pass starts and are
+    # not written during it: every herd of the pass reads what the dairy herd recorded, whichever of them is processed first
+    from .core import args_by_ref_names, Inliner as _Inl6
+    ccp = index.func(ANIM, "AnimalPopulation.calculate_change_in_population")
+    step_calls = [c for c in ast.walk(ml) if isinstance(c, ast.Call) and (dotted(c.func) or "").endswith("calculate_change_in_population")]
+    if len(step_calls) != 1:
+        raise AnalysisError("month loop: expected one call of calculate_change_in_population")
+    step_loop = None
+    for f_ in ast.walk(ml):
+        if isinstance(f_, ast.For) and f_ is not ml and any(n_ is step_calls[0] for n_ in ast.walk(f_)):
+            if step_loop is None or any(n_ is f_ for n_ in ast.walk(step_loop)):
+                step_loop = f_          # the innermost loop around the call: the per-animal slaughter pass
+    add_e = args_by_ref_names(step_calls[0], ccp, ["animal", "country_object", "new_additive_animals_month", "remaining_hours_this_size"], method=False)[2]
+    tables = set()
+    if add_e is not None and step_loop is not None:
+        defs_ = [add_e] + [s_.value for s_ in ast.walk(step_loop) if isinstance(s_, ast.Assign) and isinstance(add_e, ast.Name)
+                           and any(isinstance(t_, ast.Name) and t_.id == add_e.id for t_ in s_.targets)]
+        for d_ in defs_:
+            tables |= {n_.value.id for n_ in ast.walk(d_) if isinstance(n_, ast.Subscript) and isinstance(n_.value, ast.Name)}
+    rewrites = [s_ for s_ in ast.walk(step_loop) if isinstance(s_, (ast.Assign, ast.AugAssign)) for t_ in (s_.targets if isinstance(s_, ast.Assign) else [s_.target])
+                if isinstance(t_, ast.Subscript) and isinstance(t_.value, ast.Name) and t_.value.id in tables] if step_loop is not None else []
+    rep.check(bool(tables) and not rewrites, rule, "transfer and births tables are not rewritten during the slaughter pass",
+              "a table the additive term is read from (" + ", ".join(sorted(tables)) + ") is written inside the slaughter pass: a herd processed later in the "
+              "pass receives something else than the dairy herd recorded and lost (animals vanish or appear between the two herds)",
+              loc=loc(ANIM, rewrites[0]) if rewrites else loc(ANIM, ml))
     cb = index.func(ANIM, "AnimalPopulation.calculate_births")
     it = Interp()
     p, app, br, tc = (Rat.atom((n_,)) for n_ in ("birthing", "per_pregnancy", "birth_ratio", "transfer_culling"))
